@@ -26,6 +26,7 @@ import (
 	"runtime"
 	"runtime/debug"
 	"runtime/metrics"
+	"runtime/pprof"
 	"strconv"
 	"strings"
 	"sync"
@@ -610,19 +611,28 @@ func runCase(ci int, c *caseT, p *plan, seed uint64, nchk, ninj int) []vh.M {
 // ---------------------------------------------------------------------------------------------------------------
 // child and parent
 
-// Address-space cap of a child.  The Go runtime itself reserves ~1.5 GiB; the cap is far above that and above the
-// largest single allocation a 32-bit length field can request (4 GiB), so that such allocations SUCCEED and are
-// measured by the allocation counters (the pages are never touched).  Only a reader that keeps allocating hits the cap
-// and aborts; that abort is attributed to the case through the marker.
-const asCapMiB = 12 * 1024
+// Address-space cap of a child.  A child of this binary has a virtual size of ~1.55 GiB (measured: VmPeak 1,607,548 kB
+// with 23 MB resident - reservations of the Go runtime), so 3 GiB leaves ~1.4 GiB of head room: the runtime's own
+// reservations never reach the cap (children are replaced after any allocation > 32 MiB, the heap does not accumulate),
+// while a single allocation of more than ~1.4 GiB is refused inside mallocgc at once, without touching memory, with
+// "runtime: out of memory: cannot allocate N-byte block": N is the size the reader asked for, and NgReader.tla judges it
+// like a measured allocation.  A larger cap is NOT safer: a 4 GiB make that succeeds is zeroed by the runtime whenever
+// its span overlaps a used arena, which commits 4 GiB per child and took > 60 s under load (false hangs, and 18
+// children x 4 GiB exceed the RAM of the machine).
+const asCapMiB = 3072
 
 var runStart atomic.Int64
+
+// a stream of a few hundred bytes is read in microseconds; zeroing an allocation just below the cap on a loaded machine
+// has been seen to take ~15 s
+const hangAfter = 150 * time.Second
 
 func childWatchdog() {
 	for {
 		time.Sleep(500 * time.Millisecond)
-		if t := runStart.Load(); t != 0 && time.Now().UnixNano()-t > int64(60*time.Second) {
-			fmt.Fprintln(os.Stderr, "HANG: reader call did not return within 60 s")
+		if t := runStart.Load(); t != 0 && time.Now().UnixNano()-t > int64(hangAfter) {
+			fmt.Fprintln(os.Stderr, "HANG: reader call did not return within", hangAfter)
+			pprof.Lookup("goroutine").WriteTo(os.Stderr, 2) // where it is stuck
 			os.Exit(5)
 		}
 	}
@@ -680,6 +690,7 @@ func fatal(reason string) {
 	select {} // another goroutine is already exiting
 }
 
+var envRe = regexp.MustCompile(`(?i)failed to create new OS thread|cannot allocate memory|cannot map pages|failed to reserve|errno=12|resource temporarily unavailable`)
 var oomRe = regexp.MustCompile(`cannot allocate (\d+)-byte block`)
 
 func mainHostile(in, out string, nrand int, seed uint64, workers, nchk, ninj int) {
@@ -775,9 +786,10 @@ func mainHostile(in, out string, nrand int, seed uint64, workers, nchk, ninj int
 					continue
 				}
 				startFail = 0
-				// killed by a signal (e.g. the kernel's OOM killer while the machine is overloaded) and not by the Go
-				// runtime: not necessarily the fault of the case - run it once more before attributing the abort to it
-				if signalled && killed[ci] < 1 {
+				// killed by a signal (e.g. the kernel's OOM killer while the machine is overloaded), or the runtime could not
+				// get a thread / map memory for itself (not an allocation of a given size requested by a reader): not
+				// necessarily the fault of the case - run it once more before attributing the abort to it
+				if (signalled || (code == 2 && !oomRe.MatchString(msg) && envRe.MatchString(msg))) && killed[ci] < 1 {
 					killed[ci]++
 					stats.Lock()
 					stats.restarts++
@@ -810,7 +822,8 @@ func mainHostile(in, out string, nrand int, seed uint64, workers, nchk, ninj int
 				caseEv := vh.M{"op": "case", "cs": ci, "fmt": format, "base": c.Base, "loc": c.Loc, "cls": c.Cls, "src": c.Src,
 					"present": len(c.file) + gzl, "size": len(c.file), "hex": caseHex(&c)}
 				if code == 5 && strings.Contains(msg, "HANG:") {
-					crashes[w] = append(crashes[w], caseEv, vh.M{"op": "hang", "cs": ci, "rd": fs[1], "shape": fs[2]})
+					crashes[w] = append(crashes[w], caseEv, vh.M{"op": "hang", "cs": ci, "rd": fs[1], "shape": fs[2], "site": site,
+						"stack": trim(msg, 3000)})
 				} else {
 					crashes[w] = append(crashes[w], caseEv,
 						vh.M{"op": "crash", "cs": ci, "rd": fs[1], "shape": fs[2], "snapkb": snapkb, "oom": oom, "reqkb": reqkb, "code": code,
